@@ -1,14 +1,12 @@
 use crate::State;
 
-pub mod digest;
-pub mod shape;
 pub mod util;
+
+include!(concat!(env!("OUT_DIR"), "/ops_gen.rs"));
 
 pub fn dispatch(toks: &[&str], st: &mut State) -> Option<String> {
     match toks[0] {
         "flush" => Some("ok".into()),
-        "digest" => digest::handle(&toks[1..]),
-        "font" | "fontfile" | "fontdrop" | "shape" | "prefilter" => shape::handle(toks, st),
-        _ => None,
+        _ => dispatch_gen(toks, st),
     }
 }
